@@ -79,6 +79,9 @@ def build_harness(race=False):
     cmd = ["go", "build", "-tags", "verif", "-o", out]
     if race:
         cmd.append("-race")
+    if os.environ.get("VERIF_COVER"):
+        # tools/covreport.sh: which statements of PDOK/texel do the checks execute at all (GOCOVERDIR collects the counters)
+        cmd += ["-cover", "-coverpkg=github.com/pdok/texel/..."]
     cmd.append("./cmd/drv")
     t0 = time.time()
     p = subprocess.run(cmd, cwd=hdir, env=GOENV, stdout=subprocess.PIPE, stderr=subprocess.STDOUT, text=True)
@@ -94,7 +97,8 @@ def build_texel_binary():
     out = os.path.join(BUILD, "texel")
     env = dict(GOENV)
     env["GOFLAGS"] = "-mod=readonly"
-    p = subprocess.run(["go", "build", "-tags", "verif", "-o", out, "."], cwd=REPO, env=env,
+    cov = ["-cover", "-coverpkg=github.com/pdok/texel/..."] if os.environ.get("VERIF_COVER") else []
+    p = subprocess.run(["go", "build", "-tags", "verif"] + cov + ["-o", out, "."], cwd=REPO, env=env,
                        stdout=subprocess.PIPE, stderr=subprocess.STDOUT, text=True)
     if p.returncode != 0:
         raise Broken("texel binary does not build:\n%s" % p.stdout[-4000:])
